@@ -84,10 +84,27 @@ Fixpoint eqNs (a b : list N) : bool :=
   | _, _ => false
   end.
 
+(* the implementation's action tables arrive run-length encoded:
+   (number of consecutive equal rows, row) *)
+Definition expand (rle : list (N * N)) : list N :=
+  flat_map (fun cv => repeat (snd cv) (N.to_nat (fst cv))) rle.
+
+(* equal as sets of variables *)
+Definition same_vars (a b : list var) : bool :=
+  forallb (fun k => mem k b) a && forallb (fun k => mem k a) b
+  && Nat.eqb (length a) (length b).
+
+(* the declaration side of `graph_to_logic`: range of the node variable and
+   the two variable lists *)
+Definition agree_decl (g : tsysA) (lo hi : Z) (env sys : list var) : bool :=
+  let '(l, h) := nodevar_dom g in
+  let '(e, s) := varlists ND g in
+  Z.eqb l lo && Z.eqb h hi && same_vars e env && same_vars s sys.
+
 (* the four comparisons of one case *)
 Definition agree (doms : list (list Z)) (a : automaton N N)
-    (ei si : N) (ea sa : list N) : list bool :=
+    (ei si : N) (ea sa : list (N * N)) : list bool :=
   [ N.eqb (table1 doms (env_init a)) ei;
     N.eqb (table1 doms (sys_init a)) si;
-    eqNs (table2 doms (env_action a)) ea;
-    eqNs (table2 doms (sys_action a)) sa ].
+    eqNs (table2 doms (env_action a)) (expand ea);
+    eqNs (table2 doms (sys_action a)) (expand sa) ].
